@@ -112,6 +112,13 @@ func prepareMultipart(payload []byte, uploadMap UploadMap) (body []byte, content
 			return b.Bytes(), w.FormDataContentType(), e
 		}
 
+		// the same upload may be named at several paths: read it from the start each time
+		if seeker, ok := uploadVariable.upload.File.(io.Seeker); ok {
+			if _, e = seeker.Seek(0, io.SeekStart); e != nil {
+				return b.Bytes(), w.FormDataContentType(), e
+			}
+		}
+
 		_, e = io.Copy(fw, uploadVariable.upload.File)
 		if e != nil {
 			return b.Bytes(), w.FormDataContentType(), e
